@@ -32,6 +32,8 @@ func checkC03(p *Prog, r *Report) {
 	r.rule("C03.P5", "rmt_wnd is stored only by the constructor and, in Input, from the header's wnd under pktType == IKCP_PACKET_REGULAR", 2)
 	r.rule("C03.P6", "every emitted segment's wnd comes from wnd_unused() (= C04.W3)", 2)
 	r.rule("C03.P9", "with congestion control on, the sender can always resume: a clamp of cwnd to another quantity stores a value >= 1 (so an advertised window of 0 cannot zero it), and if the constructor leaves cwnd below 1 every congestion-controlled flush ends with cwnd >= 1", 2)
+	r.rule("C03.P11", "a delivered window update restarts the sender at once: the interval flush returns (which re-arms the session's updater) is never stretched beyond kcp.interval, also not while the peer's window is closed (= C18.R8)", 2)
+	r.rule("C03.P12", "segments in flight when the window closed are retransmitted until acknowledged, however long the reader pauses: the timeout arm of flush has no retry cap (= C02.A16)", 1)
 	r.rule("C03.P10", "transfer resumes: the room a reader makes is used — after Recv has taken segments every path runs the loop that promotes parked (already acknowledged) segments from rcv_buf, and that loop is entered whenever rcv_buf holds something (= C02.A11)", 1)
 	r.rule("C03.P8", "no data is lost under back-pressure: a segment that Input acknowledges is stored unless it is outside the window or a duplicate (= C02.A1b)", 1)
 	r.rule("C03.P7", "duplicates of already delivered segments are re-acknowledged: ack_push is controlled by the upper window edge only", 1)
@@ -101,17 +103,94 @@ func checkC03(p *Prog, r *Report) {
 				tb = &q
 			}
 		}
+		// table-driven form: for _, pc := range [...]T{{FLAG, CMD, …}, …} { if probe&pc.flag != 0 { seg.cmd = pc.cmd; …encode } }
+		// — decided per row: with the row's constants substituted for the fields of the loop variable the test is
+		// the flag test and the stored command is the row's command
+		var rowSubst map[string]*Term
+		var tableHdr *Point // header of the table loop (a loop over a non-empty literal runs every row)
+		if tb == nil {
+			ast.Inspect(flush.Body, func(x ast.Node) bool {
+				rs, ok := x.(*ast.RangeStmt)
+				if !ok || rs.Value == nil || tb != nil {
+					return true
+				}
+				lit, ok := ast.Unparen(rs.X).(*ast.CompositeLit)
+				pv := identVar(p, rs.Value)
+				if !ok || pv == nil {
+					return true
+				}
+				for _, el := range lit.Elts {
+					row, isRow := ast.Unparen(el).(*ast.CompositeLit)
+					if !isRow {
+						continue
+					}
+					st, isSt := pv.Type().Underlying().(*types.Struct)
+					if !isSt {
+						continue
+					}
+					m := map[string]*Term{}
+					for i, fe := range row.Elts {
+						var fv *types.Var
+						val := fe
+						if kv, isKV := fe.(*ast.KeyValueExpr); isKV {
+							if id, isId := kv.Key.(*ast.Ident); isId {
+								fv, _ = p.Info.Uses[id].(*types.Var)
+							}
+							val = kv.Value
+						} else if i < st.NumFields() {
+							fv = st.Field(i)
+						}
+						if fv == nil {
+							continue
+						}
+						if cv := p.Term(val); cv.IsConst() {
+							m[tFld(tVar(pv), fv).Key()] = tConst(cv.Int)
+						}
+					}
+					for _, b := range c.live {
+						ct := c.CondTerm(b)
+						if ct == nil || !nodeWithin(p, lastNode(b), rs.Body) {
+							continue
+						}
+						sub := ct
+						for k, v := range m {
+							sub = replaceByKey(sub, k, v)
+						}
+						if deepNorm(sub).Key() == want.Key() {
+							q := Point{b, len(b.Nodes) - 1}
+							tb = &q
+							rowSubst = m
+							for _, hb := range c.live {
+								if hb.Kind == cfg.KindRangeLoop && hb.Stmt == ast.Stmt(rs) {
+									h := Point{hb, 0}
+									tableHdr = &h
+								}
+							}
+						}
+					}
+				}
+				return true
+			})
+		}
 		if tb == nil {
 			r.bad("C03.P2", flush.Name, p.Pos(flush.Node), e.name+" emission test", "flush has no test (probe & flag) != 0 for "+e.name, "")
 			continue
 		}
-		tests = append(tests, *tb)
+		reach := *tb
+		if tableHdr != nil {
+			reach = *tableHdr
+		}
+		tests = append(tests, reach)
 		// the true successor stores cmd = e.cmd and encodes
 		okCmd, okEnc := false, false
 		for _, nd := range tb.B.Succs[0].Nodes {
 			if as, ok := nd.(*ast.AssignStmt); ok && len(as.Lhs) == 1 && len(as.Rhs) == 1 {
 				if lt := p.Term(as.Lhs[0]); lt.Op == "fld" && lt.Obj == p.Field("segment", "cmd") {
-					if v := p.Term(as.Rhs[0]); v.IsConst() && v.Int == e.cmd {
+					v := p.Term(as.Rhs[0])
+					for k, cv := range rowSubst {
+						v = deepNorm(replaceByKey(v, k, cv))
+					}
+					if v.IsConst() && v.Int == e.cmd {
 						okCmd = true
 					}
 				}
@@ -178,7 +257,8 @@ func checkC03(p *Prog, r *Report) {
 			}
 		}
 		// reached on every path from the entry
-		skip := c.FindPath(PathQuery{From: Point{c.Entry(), 0}, ExitIsTarget: true, IsBarrier: func(_ ast.Node, q Point) bool { return q == *tb }})
+		skip := c.FindPath(PathQuery{From: Point{c.Entry(), 0}, ExitIsTarget: true, IsBarrier: func(_ ast.Node, q Point) bool { return q == reach },
+			OnBlock: func(b *cfg.Block) (bool, bool) { return false, tableHdr != nil && b == tableHdr.B }})
 		switch {
 		case !okCmd || !okEnc:
 			r.bad("C03.P2", flush.Name, p.Pos(tb.Node()), e.name+" emitted iff its flag is set", "the flag is tested but no "+e.name+" segment is encoded on the true edge", "")
@@ -282,7 +362,7 @@ func checkC03(p *Prog, r *Report) {
 				return true
 			}
 			for _, ct := range rc.DominatingConds(pt) {
-				if ct.Key() == le(wnd, lenQ).Key() {
+				if ct.Key() == le(wnd, lenQ).Key() || normTerm(p.ExpandHelpers(ct)).Key() == le(wnd, lenQ).Key() {
 					flag = v
 					if firstPop != nil && !rc.Reaches(*firstPop, pt) {
 						okBefore = true
@@ -304,7 +384,9 @@ func checkC03(p *Prog, r *Report) {
 				conds := rc.DominatingConds(pt)
 				var cj []*Term
 				for _, ct := range conds {
-					cj = append(cj, Conjuncts(ct)...)
+					for _, a := range Conjuncts(ct) {
+						cj = append(cj, Conjuncts(normTerm(p.ExpandHelpers(a)))...) // rcv_queue_full() and the like
+					}
 				}
 				hasRoom, hasFlag := false, false
 				nRel := 0
@@ -391,6 +473,8 @@ func checkC03(p *Prog, r *Report) {
 	checkAckEveryPush(p, r, "C03.P7")
 	checkAckedIsAccepted(p, r, "C03.P8")
 	checkPromotionInRecv(p, r, "C03.P10")
+	checkFlushIntervalOnlyLowered(p, r, "C03.P11")
+	checkTimeoutArmUnconditional(p, r, "C03.P12")
 	checkCwndNeverStuck(p, r, "C03.P9")
 }
 
@@ -590,7 +674,19 @@ func checkCwndNeverStuck(p *Prog, r *Report, rule string) {
 			if ct == nil || len(b.Succs) != 2 {
 				continue
 			}
-			if ct.Key() == lt(cw, tConst(1)).Key() || ct.Key() == eq(cw, tConst(0)).Key() || ct.Key() == le(cw, tConst(0)).Key() {
+			isLow := func(t *Term) bool {
+				return t.Key() == lt(cw, tConst(1)).Key() || t.Key() == eq(cw, tConst(0)).Key() || t.Key() == le(cw, tConst(0)).Key()
+			}
+			low := isLow(ct)
+			if ct.Op == "||" {
+				// lostSegs > 0 || cwnd < 1: the floor is applied at least whenever cwnd < 1
+				for _, d := range ct.Args {
+					if isLow(d) {
+						low = true
+					}
+				}
+			}
+			if low {
 				// the true edge stores a constant >= 1
 				for _, nd := range b.Succs[0].Nodes {
 					if as, ok := nd.(*ast.AssignStmt); ok && len(as.Lhs) == 1 && len(as.Rhs) == 1 && p.Term(as.Lhs[0]).Key() == cw.Key() {
